@@ -373,25 +373,7 @@ Proof.
     unfold send_ping. discriminate.
 Qed.
 
-(* ---- reported open => usable, for runs in which _OpenImpl does not complete after a shutdown ---- *)
-Definition norace (s : st) (l : label) : bool :=
-  match l, opn s, cst s with
-  | MOResume, Some (OWoken true), Closed => false
-  | _, _, _ => true
-  end.
-
-Fixpoint run_nr (s : st) (ls : list label) : option (st * list ev) :=
-  match ls with
-  | [] => Some (s, [])
-  | l :: r =>
-      if norace s l then
-        match step s l with
-        | Some (s1, e1) => match run_nr s1 r with Some (s2, e2) => Some (s2, e1 ++ e2) | None => None end
-        | None => None
-        end
-      else None
-  end.
-
+(* ---- reported open => usable ---- *)
 Record Alive (s : st) : Prop := {
   a_wait : cst s <> Closed -> (opn s = Some OPingWait \/ exists b, opn s = Some (OWoken b)) -> sndl s <> SDead /\ rcv s <> RDead;
   a_open : cst s = Open -> sndl s <> SDead /\ rcv s <> RDead;
@@ -400,12 +382,12 @@ Record Alive (s : st) : Prop := {
 Lemma alive_init t0 : Alive (init t0).
 Proof. constructor; cbn; intros; try discriminate. destruct H0 as [X|(b & X)]; discriminate. Qed.
 
-Lemma step_alive s l s' e : Alive s -> norace s l = true -> step s l = Some (s', e) -> Alive s'.
+Lemma step_alive s l s' e : Alive s -> step s l = Some (s', e) -> Alive s'.
 Proof.
-  intros [A1 A2] N H.
+  intros [A1 A2] H.
   destruct s as [nw ch op tm sn ex q sd rc pd pa dl pls lw lpg]; cbn in *.
   destruct l; cbn in H; unfold shutdown, send_ping, ar_fail, wake_fail, tick_ok in H; cbn in H; brk;
-  constructor; cbn; intros; unfold norace in *; cbn in *;
+  constructor; cbn; intros; cbn in *;
   repeat match goal with
   | H : _ \/ _ |- _ => destruct H
   | H : exists _, _ |- _ => destruct H
@@ -415,17 +397,15 @@ Proof.
   try (destruct A1 as [X Y];
        [congruence | first [left; congruence | right; eexists; eassumption | right; eexists; reflexivity] |];
        split; congruence).
-  destruct ch; try discriminate; (apply A1; [congruence | right; eexists; reflexivity]).
 Qed.
 
-Lemma run_nr_inv ls : forall s s' e, Inv s -> Alive s -> run_nr s ls = Some (s', e) -> Inv s' /\ Alive s' /\ run s ls = Some (s', e).
+Lemma run_alive ls : forall s s' e, Inv s -> Alive s -> run s ls = Some (s', e) -> Inv s' /\ Alive s'.
 Proof.
   induction ls as [|l ls IH]; intros s s' e I A H; cbn in H.
-  - inversion H; subst. split; [assumption | split; [assumption | reflexivity]].
-  - destruct (norace s l) eqn:N; [|discriminate]. destruct (step s l) as [[s1 e1]|] eqn:S; [|discriminate].
-    destruct (run_nr s1 ls) as [[s2 e2]|] eqn:R; [|discriminate]. inversion H; subst.
-    destruct (IH _ _ _ (step_inv _ _ _ _ I S) (step_alive _ _ _ _ A N S) R) as (I2 & A2 & R2).
-    split; [assumption | split; [assumption|]]. cbn. rewrite S, R2. reflexivity.
+  - inversion H; subst. split; assumption.
+  - destruct (step s l) as [[s1 e1]|] eqn:S; [|discriminate].
+    destruct (run s1 ls) as [[s2 e2]|] eqn:R; [|discriminate]. inversion H; subst.
+    exact (IH _ _ _ (step_inv _ _ _ _ I S) (step_alive _ _ _ _ A S) R).
 Qed.
 
 Lemma usable s :
@@ -455,25 +435,25 @@ Proof.
   try (fold (errs tm); rewrite ?nfaults_app, nfaults_errs; cbn; first [left; reflexivity | right; repeat split; discriminate]).
 Qed.
 
-Lemma step_stays_closed s l s' e : norace s l = true -> step s l = Some (s', e) -> cst s = Closed -> cst s' = Closed.
+Lemma step_stays_closed s l s' e : step s l = Some (s', e) -> cst s = Closed -> cst s' = Closed.
 Proof.
-  intros N H C. destruct s as [nw ch op tm sn ex q sd rc pd pa dl pls lw lpg]. cbn in C. subst ch.
-  destruct l; cbn in H; unfold shutdown, send_ping, ar_fail, wake_fail, tick_ok in H; cbn in H; unfold norace in N; cbn in N; brk;
+  intros H C. destruct s as [nw ch op tm sn ex q sd rc pd pa dl pls lw lpg]. cbn in C. subst ch.
+  destruct l; cbn in H; unfold shutdown, send_ping, ar_fail, wake_fail, tick_ok in H; cbn in H; brk;
   try reflexivity; try discriminate.
 Qed.
 
-Lemma run_nr_faults ls : forall s s' e,
-  run_nr s ls = Some (s', e) ->
+Lemma run_faults ls : forall s s' e,
+  run s ls = Some (s', e) ->
   (cst s = Closed -> nfaults e = 0 /\ cst s' = Closed) /\ (nfaults e = 0 \/ (nfaults e = 1 /\ cst s' = Closed)).
 Proof.
   induction ls as [|l ls IH]; intros s s' e H; cbn in H.
   - inversion H; subst. cbn. split; [intros C; split; [reflexivity | assumption] | left; reflexivity].
-  - destruct (norace s l) eqn:N; [|discriminate]. destruct (step s l) as [[s1 e1]|] eqn:S; [|discriminate].
-    destruct (run_nr s1 ls) as [[s2 e2]|] eqn:R; [|discriminate]. inversion H; subst.
+  - destruct (step s l) as [[s1 e1]|] eqn:S; [|discriminate].
+    destruct (run s1 ls) as [[s2 e2]|] eqn:R; [|discriminate]. inversion H; subst.
     destruct (IH _ _ _ R) as (I1 & I2). rewrite nfaults_app.
     destruct (step_faults _ _ _ _ S) as [F|(F & C1 & C2)].
     + split.
-      * intros C. pose proof (step_stays_closed _ _ _ _ N S C) as C1. destruct (I1 C1) as (X & Y). split; [lia | assumption].
+      * intros C. pose proof (step_stays_closed _ _ _ _ S C) as C1. destruct (I1 C1) as (X & Y). split; [lia | assumption].
       * destruct I2 as [X|(X & Y)]; [left; lia | right; split; [lia | assumption]].
     + destruct (I1 C2) as (X & Y). split; [intros C; contradiction | right; split; [lia | assumption]].
 Qed.
